@@ -678,7 +678,7 @@ def run_c01(ctx):
             dfs_plan=[(PAIR, ctx.pick(1500, 40000)), (REUSE, ctx.pick(1500, 15000))] + ([] if q else [(CHAIN3, 15000)]))
     # the merge performed by Env.apply: what 'the complete update is readable' rests on
     import conf_envops
-    conf_envops.run(ctx, tlc.workdir('c01envops'), 'C01')
+    ctx.extra('EnvOps', conf_envops.run, tlc.workdir('c01envops'), 'C01')
 
 
 def run_c02(ctx):
